@@ -145,6 +145,12 @@ GUARDS = [
     "len({pr(0, 1) for v in xs if v < 0}) == 0 and pr(1, False)",
     "{v: pr(0, 1) for v in xs if v < 0} == {} and pr(1, False)",
     "not any(v < 0 and pr(0, True) for v in xs) and pr(1, False)",
+    # ... the same for attribute look-ups (a property) and subscripts (a mapping with a __getitem__ of its own)
+    "all(v > 0 or PO.hit for v in xs) and pr(1, False)",
+    "all(v < 0 and PO.hit for v in xs) or pr(1, False)",
+    "all(0 < v < PD['k'] for v in xs) and pr(1, False)",
+    "all(v > 0 or PD['k'] for v in xs) and pr(1, False)",
+    "xs and all(PO.hit > v for v in xs) and pr(1, False)",   # (over an empty iterable nothing is evaluated at all; not a short-circuit)
     # a defaulted parameter of the condition itself (kd=0) in front of the guard
     "pr(0, kd < 1) and pr(1, x != 0) and pr(2, 10 // x > 100)",
     "kd < 1 and x != 0 and pr(0, 10 // x > 100)",
@@ -153,6 +159,12 @@ GUARDS = [
     "pr(0, x != 0) and pr(1, LATE > 0) and pr(2, False)",
     "pr(0, x == 0) or pr(1, LATE > 0 and False)",
 ]
+
+
+PROBE_OBJECTS_SRC = (
+    "class _PO:\n    @property\n    def hit(self):\n        return pr(8, 100)\n    def __repr__(self):\n        return 'PO'\n"
+    "class _PD:\n    def __getitem__(self, key):\n        return pr(9, 100)\n    def __repr__(self):\n        return 'PD'\n"
+    "PO = _PO()\nPD = _PD()\n")
 
 
 def guard_valuations():
@@ -184,7 +196,7 @@ def check_guards(acc):
         plog.append(k)
         return v
     src = c06.render_batch([(i, r, c) for i, r, c, e in items], extra={i: e for i, r, c, e in items},
-                           prelude="class MyErr(Exception): pass\nPLOG = []\ndef pr(k, v):\n    PLOG.append(k)\n    return v\n")
+                           prelude="class MyErr(Exception): pass\nPLOG = []\ndef pr(k, v):\n    PLOG.append(k)\n    return v\n" + PROBE_OBJECTS_SRC)
     ns = core.fresh_ctx_run(core.load_source, src, "c07g")
     try:
         for idx, role, g, err in items:
@@ -193,6 +205,7 @@ def check_guards(acc):
                 env = dict(genv)
                 env.update(val)
                 env["pr"] = pr
+                exec(PROBE_OBJECTS_SRC, env)
                 del plog[:]
                 try:
                     res = eval(compile(ast.parse(g, mode="eval"), "<g>", "eval"), env)
@@ -274,6 +287,9 @@ def layouts():
     # a line inside a string literal of the decorator which looks like the start of a decorator
     L.append(("at_line_in_description", lambda d, c, desc: ["@{}(".format(d), "    description=\"\"\"the description", "    @see the manual\"\"\",",
                                                             "    condition=lambda x, xs: {})".format(c)]))
+    # ... or like the statement which ends the decorators (after the line of the lambda)
+    L.append(("def_line_in_description", lambda d, c, desc: ["@{}(".format(d), "    condition=lambda x, xs: {},".format(c), "    description=\"\"\"the description",
+                                                             "    def is no statement here", "    class neither\"\"\")"]))
     # continuation lines whose indentation has nothing in common with the one of the decorator line (legal inside parentheses)
     L.append(("continuation_at_column0", lambda d, c, desc: ["@{}(lambda x, xs:".format(d), "<COL0>{})".format(c)]))
     L.append(("continuation_tabs", lambda d, c, desc: ["@{}(".format(d), "<COL0>\t\tlambda x, xs:", "<COL0>\t\t{})".format(c)]))
@@ -310,6 +326,7 @@ def render_layout(layout_fn, alias, cond, neighbours, scope, target):
     string_layout = len(deco) == 2 and '"""' in deco[0] and deco[0].endswith("a")
     nested_fstring_layout = string_layout and "{f'{1}'}" in deco[0]
     description_with_at = any("@see the manual" in ln for ln in deco)
+    description_with_def = any("def is no statement here" in ln for ln in deco)
     backslash_layout = len(deco) == 2 and deco[0].endswith("'a\\")
     if is_inv:
         deco = [ln.replace("lambda x, xs:", "lambda self:") for ln in deco]
@@ -348,6 +365,8 @@ def render_layout(layout_fn, alias, cond, neighbours, scope, target):
     pad = "    " * ind
     if description_with_at:
         desc = "the description\n" + pad + "    @see the manual"
+    if description_with_def:
+        desc = "the description\n" + pad + "    def is no statement here\n" + pad + "    class neither"
     if string_layout:
         # the value of the literal: everything between the quotes as it stands in the file
         second = deco[1]
@@ -447,7 +466,7 @@ def check_layout(case, acc, lay_by_name):
                 bad = ("location_scope", "{!r} expected {!r}".format(m.group(3), exp_scope))
             else:
                 rest = msg.split("\n", 1)[1]
-                if has_desc and desc in src and not rest.startswith(desc + ": ") and "description" in lname or (lname in ("one_line_desc_pos", "one_line_desc_kw", "body_many_lines", "kw_condition_first", "kw_condition_last", "kw_condition_middle", "kw_multi_line", "continuation_starts_like_def", "at_line_in_description") and not rest.startswith(desc + ": ")):
+                if has_desc and desc in src and not rest.startswith(desc + ": ") and "description" in lname or (lname in ("one_line_desc_pos", "one_line_desc_kw", "body_many_lines", "kw_condition_first", "kw_condition_last", "kw_condition_middle", "kw_multi_line", "continuation_starts_like_def", "at_line_in_description", "def_line_in_description") and not rest.startswith(desc + ": ")):
                     bad = ("description_missing", rest[:120])
                 else:
                     if rest.startswith(desc + ": "):
